@@ -171,8 +171,12 @@ def edit_check(ctx, prop, which):
     nt = 8 if ctx.tier == "quick" else 40
     cfgs = [("Edit_quick.cfg", nt, 2)] if ctx.tier == "quick" else [("Edit_thorough.cfg", nt, 2), ("Edit_double.cfg", 6, 1)]
     witness = None
-    for cfg, ntrees, ms in cfgs:
-        gp, cnt = syntax_gen(ctx, ctx.seed, ntrees, ms, cfg, "edit_" + cfg.split(".")[0], module="Edit", workers=8)
+    for cfg, ntrees, ms in cfgs + [("soups", 0, 0)]:
+        if cfg == "soups":
+            gp = os.path.join(ctx.work, "soups.ndjson")
+            ctx.vh_json(["soups", ctx.seed, 6000 if ctx.tier == "quick" else 100000, gp])
+        else:
+            gp, cnt = syntax_gen(ctx, ctx.seed, ntrees, ms, cfg, "edit_" + cfg.split(".")[0], module="Edit", workers=8)
         if witness is None:
             # dedicated witnesses of the known findings are appended to the first batch
             from .core import load_known
